@@ -187,11 +187,25 @@ class XlsObject:
             defaults_factories = [None for _ in range(len(cells_types))]
         assert len(cells_types) == len(defaults_factories)
 
-        anchor_cell = cells_list[0]
-        self._src_ws_name = anchor_cell.parent.title
-        if ' ' in self._src_ws_name:
-            self._src_ws_name = f"'{self._src_ws_name}'"
-        self._anchor_cell_coord = anchor_cell.coordinate
+        # the anchor is the first cell the object is really read from (the
+        # first attribute may be external, a missing optional column or ranged)
+        anchor_cell = None
+        for cell in cells_list:
+            if isinstance(cell, tuple):
+                # ranged attribute: (columns names, cells)
+                cell = cell[1][0] if cell[1] else None
+            if cell is not None:
+                anchor_cell = cell
+                break
+        if anchor_cell is None:
+            # the object is not read from any cell at all
+            self._src_ws_name = "<n/a>"
+            self._anchor_cell_coord = "<n/a>"
+        else:
+            self._src_ws_name = anchor_cell.parent.title
+            if ' ' in self._src_ws_name:
+                self._src_ws_name = f"'{self._src_ws_name}'"
+            self._anchor_cell_coord = anchor_cell.coordinate
         self._attrs_origins = {}
 
         for attr_name, cell_type, cell, default_factory in zip(
